@@ -33,6 +33,10 @@ CHECKS['C03'] = dict(level='proof',
    text='The byte-level kernel is proved from the real source: _find_lines yields a partition of [0,len) (and terminates), find_any, _split_lines (header ++ body = all lines), get_raw (slice spanning the non-empty groups, empty when none), a lemma over these contracts (bytes(content) = data and HEADER followed by TEXT = data), _get_partial (= full[o:o+n]), dict append stores the content parsed from this literal, copy/move share the content object. A bounded run appends byte strings to the real server and fetches them back in every form of the statement; it is reported separately.',
    note='MessageHeader/MessageBody are assumed to keep the line groups they are given and LiteralString to write len(payload)+payload (covered by the bounded run only); nested MIME part ranges are bounded only; maildir (re-serialisation through the email package) is not covered; one known finding (BODYSTRUCTURE leaf size includes the header) is recorded, not repaired.',
    ref='6 C03')
+CHECKS['C20'] = dict(level='other',
+   text='Deductive: for FileLock.write_lock/read_lock the critical section is entered only while the lock file is held and a granted lock is released on every exit of the context manager (normal, TimeoutError, exception or cancellation out of the critical section); count bookkeeping of _AsyncioReadWriteLock._acquire_read/_release_read; the release path has no suspension. Bounded: mutual exclusion, absence of deadlock and usability after any single cancellation are checked by exhaustive schedule exploration of the real coroutines for task sets of 2..4 tasks (asyncio.Lock replaced by a stated model), FileLock on a real directory.',
+   note='Exclusion under all interleavings is bounded (small task sets, <= 200000 schedules per program), not proved; asyncio.Lock is modelled (FIFO, no hand-over); O_EXCL exclusivity assumed; the threading variant is not covered.',
+   ref='6 C20', technique='contract-based deductive verification (pyvc, z3) of release-on-every-exit and bookkeeping; bounded stand-in: exhaustive schedule exploration of the real coroutines')
 NOT_YET = {}
 def main():
     props = [json.loads(l) for l in open(os.path.join(HERE, 'properties.jsonl'))]
